@@ -1,6 +1,6 @@
 import FlytModel.Generated.IR
 import FlytModel.Expected.IR
-/-! The translation of `runExecWithRetries` from the CURRENT source is, term for term, the IR the refinement theorems are about. -/
+/-! The translation of `runExecWithRetries` from the CURRENT source is, term for term, the expected IR. -/
 namespace Flyt.Tie
 theorem runExecWithRetries : Flyt.Generated.IR.runExecWithRetries = Flyt.Expected.IR.runExecWithRetries := rfl
 end Flyt.Tie
